@@ -33,7 +33,7 @@ import (
 //   unpack <cookie> xKEY <maxAge>                     unpackOAuthCookie at the real clock
 //   parse xURL                                        net/url.Parse vs the Lean parser (tie of the NV library model)
 //   origurl xURL xPREFIX                              validateOriginalURL
-//   returnto xURL <allow>                             validateReturnTo        (<allow> = - | xA,xB,...)
+//   returnto xURL <allow>                             validateReturnTo on a server configured with SetOAuthPkce{AllowedReturnOrigins: <allow>}  (<allow> = - | xA,xB,...)
 //   cfg xPREFIX <allow> xSIGNKEY <disc 0|1>           real HttpServer + PKCE + fake IdP (httptest)
 //   page xTARGET <tok: -|xTOK> <expired 0|1>          raw "GET TARGET" with Accept: text/html (early return / login redirect)
 //   callback xERR xCODE <state: $|~|xS> <cookie> <idp>  GET {prefix}/_oauth/callback ($ = state of the last login, ~ = that state with one bit flipped)
@@ -422,8 +422,9 @@ func newC27Env(prefix string, allow []string, key []byte, disc bool) (*c27Env, e
 	hs.InitPages()
 	e := &c27Env{hs: hs, idp: idp, prefix: prefix, disc: disc}
 	e.ts = httptest.NewServer(hs)
-	e.allow = hs.VerifC27AllowedReturnOrigins()
-	sort.Strings(e.allow)
+	// the property's allowlist is what the OPERATOR configured (plus the documented default origin),
+	// not whatever map the server derived from it
+	e.allow = c27Effective(allow)
 	e.sessKey = hs.VerifC27SessionKey()
 	return e, nil
 }
@@ -603,8 +604,47 @@ func c27ResolveCookie(spec string, env *c27Env, ownKey []byte, now int64) (val s
 	}
 }
 
+// c27Effective: the configured origins plus the always-allowed default, sorted, without duplicates.
+func c27Effective(configured []string) []string {
+	seen := map[string]bool{}
+	out := []string{}
+	for _, a := range append([]string{vgirpc.VerifC27DefaultReturnOrigin}, configured...) {
+		if !seen[a] {
+			seen[a] = true
+			out = append(out, a)
+		}
+	}
+	sort.Strings(out)
+	return out
+}
+
+// c27ValidatorServer configures a real HttpServer with the given AllowedReturnOrigins (no request is
+// ever served; OIDC discovery is lazy and never triggered).
+func c27ValidatorServer(allow []string) *vgirpc.HttpServer {
+	hs, err := vgirpc.NewHttpServerWithKey(vgirpc.NewServer(), []byte("verif-c27-validator-key-01234567"))
+	if err != nil {
+		return nil
+	}
+	hs.SetAuthenticate(func(r *http.Request) (*vgirpc.AuthContext, error) {
+		return nil, &vgirpc.RpcError{Type: "ValueError", Message: "unauthenticated"}
+	})
+	if err := hs.SetOAuthResourceMetadata(&vgirpc.OAuthResourceMetadata{
+		Resource:             "http://localhost:8000",
+		AuthorizationServers: []string{"http://127.0.0.1:1"},
+		ClientID:             "verif-client",
+	}); err != nil {
+		return nil
+	}
+	if err := hs.SetOAuthPkce(vgirpc.OAuthPkceConfig{AllowedReturnOrigins: allow}); err != nil {
+		return nil
+	}
+	return hs
+}
+
 func c27Exec(c *Case) {
 	var env *c27Env
+	var valSrv *vgirpc.HttpServer
+	valKey := ""
 	defer func() { env.Close() }()
 	bad := func(l string) { c.Out(l, "err:bad-script") }
 	for _, l := range c.Lines {
@@ -699,13 +739,26 @@ func c27Exec(c *Case) {
 				bad(l)
 				continue
 			}
-			got := vgirpc.VerifC27ValidateReturnTo(u, allow)
+			// through the real configuration path: SetOAuthPkce builds the allowlist the validator sees
+			vk := strings.Join(allow, "\x00")
+			if valSrv == nil || valKey != vk {
+				valSrv, valKey = c27ValidatorServer(allow), vk
+			}
+			if valSrv == nil {
+				c.Out(l, "err:setup")
+				continue
+			}
+			got := valSrv.VerifC27ValidateReturnTo(u)
+			if direct := vgirpc.VerifC27ValidateReturnTo(u, c27Effective(allow)); direct != got {
+				c.Stat("returnto-config-vs-direct-differ")
+			}
+			allow = c27Effective(allow)
 			if got == "" {
 				c.Stat("returnto-refused")
 			} else {
 				c.Stat("returnto-accepted")
 			}
-			c.Out(l, XS(got))
+			c.Out(fmt.Sprintf("returnto %s %s", f[1], c27ListX(allow)), XS(got))
 			if got != "" {
 				if got != u {
 					c.Oracle("return-to-rewritten", fmt.Sprintf("validateReturnTo(%q) = %q", u, got))
